@@ -110,6 +110,74 @@ pub fn c12_case(text: &[u8], out: &mut Vec<Violation>) -> u64 {
 		Guard::Panic(pm) => out.push(mk("parent_or_empty").obs(format!("panic: {pm}")).exp("no panic")),
 	}
 
+	// derived iterator methods from every cursor state: after i front steps and j back steps
+	// the iterator must behave as an iterator over segs[i..k-j]
+	if k <= 8 {
+		for i in 0..=k {
+			for j in 0..=(k - i) {
+				evals += 1;
+				let rest: Vec<Vec<u8>> = m.segs[i..k - j].to_vec();
+				let r = guard(|| {
+					let mk_it = || {
+						let mut it = p.segments();
+						for _ in 0..i {
+							it.next();
+						}
+						for _ in 0..j {
+							it.next_back();
+						}
+						it
+					};
+					let mut probs: Vec<String> = Vec::new();
+					let cnt = mk_it().count();
+					if cnt != rest.len() {
+						probs.push(format!("count() = {cnt}, want {}", rest.len()));
+					}
+					let last = mk_it().last().map(|s| s.as_bytes().to_vec());
+					if last != rest.last().cloned() {
+						probs.push(format!("last() = {}, want {}", opt_lossy(&last), opt_lossy(&rest.last().cloned())));
+					}
+					for nth in 0..=rest.len() {
+						let g = mk_it().nth(nth).map(|s| s.as_bytes().to_vec());
+						if g != rest.get(nth).cloned() {
+							probs.push(format!("nth({nth}) = {}, want {}", opt_lossy(&g), opt_lossy(&rest.get(nth).cloned())));
+						}
+						let gb = mk_it().nth_back(nth).map(|s| s.as_bytes().to_vec());
+						let wb = if nth < rest.len() { Some(rest[rest.len() - 1 - nth].clone()) } else { None };
+						if gb != wb {
+							probs.push(format!("nth_back({nth}) = {}, want {}", opt_lossy(&gb), opt_lossy(&wb)));
+						}
+					}
+					let coll: Vec<Vec<u8>> = mk_it().map(|s| s.as_bytes().to_vec()).collect();
+					if coll != rest {
+						probs.push("collect() differs".to_string());
+					}
+					let rev: Vec<Vec<u8>> = mk_it().rev().map(|s| s.as_bytes().to_vec()).collect();
+					if rev.iter().rev().cloned().collect::<Vec<_>>() != rest {
+						probs.push("rev().collect() differs".to_string());
+					}
+					let folded = mk_it().fold(0usize, |a, s| a + s.as_bytes().len());
+					if folded != rest.iter().map(|s| s.len()).sum::<usize>() {
+						probs.push("fold differs".to_string());
+					}
+					let (lo, hi) = mk_it().size_hint();
+					if lo > rest.len() || hi.map(|h| h < rest.len()).unwrap_or(false) {
+						probs.push(format!("size_hint ({lo}, {:?}) excludes {}", hi, rest.len()));
+					}
+					probs
+				});
+				match r {
+					Guard::Ok(probs) => {
+						if let Some(first) = probs.first() {
+							out.push(mk("derived-iterator-method").obs(format!("after {i} next() and {j} next_back(): {first}")).exp("consistent with the remaining segments"));
+						}
+					}
+					Guard::Panic(pm) => out.push(mk("derived-iterator-method").obs(format!("panic: {pm}")).exp("no panic")),
+				}
+			}
+		}
+	}
+
 	// every interleaving of next / next_back, two steps beyond exhaustion (fusedness)
 	let steps = k + 2;
 	// all 2^(k+2) schedules for short paths; for long ones a family of regular schedules
